@@ -5,12 +5,17 @@
 set -u
 id="$1"; patch="$(realpath "$2")"; chk="$3"; tier="${4:-quick}"
 cd "$(dirname "$0")/.."
-if ! git -C /repo diff --quiet; then echo "$id $chk $tier SKIPPED /repo has local changes"; exit 2; fi
-if ! git -C /repo apply --check "$patch" 2>/dev/null; then echo "$id $chk $tier SKIPPED patch does not apply"; exit 2; fi
-git -C /repo apply "$patch"
+# the change is applied to a scratch worktree of /repo's HEAD (outside /repo and /verif, removed afterwards), so
+# that /repo itself is never modified and checks of the real tree can run at the same time
+wt="/dev/shm/seedrepo-$id-$chk"
+git -C /repo worktree remove --force "$wt" >/dev/null 2>&1; rm -rf "$wt"
+git -C /repo worktree add --detach -q "$wt" HEAD || { echo "$id $chk $tier SKIPPED cannot create worktree"; exit 2; }
+if ! git -C "$wt" apply "$patch" 2>/dev/null; then
+  git -C /repo worktree remove --force "$wt"; echo "$id $chk $tier SKIPPED patch does not apply"; exit 2
+fi
 out="/dev/shm/seedrun/$id/$chk"; rm -rf "$out"; mkdir -p "$out"
-VERIF_OUT="$out" ./check "$chk" "$tier" >"$out/log.txt" 2>&1; rc=$?
-git -C /repo checkout -- . ; git -C /repo clean -fdq
+VERIF_REPO="$wt" VERIF_OUT="$out" ./check "$chk" "$tier" >"$out/log.txt" 2>&1; rc=$?
+git -C /repo worktree remove --force "$wt"; rm -rf ".build/alt-$(echo "$wt" | tr '/' '_')"
 sig=$(grep -m1 "^violation signature:" "$out/log.txt" | cut -c22-160)
 case $rc in
   0) v=MISSED ;;
